@@ -26,7 +26,7 @@ def compile_prog(cli, prog, root, targets=ALL_OUT, text=None):
     for t in targets:
         dirs[t] = os.path.join(root, "out_" + t)
         args += [langs.FLAG[t], dirs[t]]
-    r = run(args, timeout=60)
+    r = run(args, timeout=240)
     return {"dsl": text, "rc": r.returncode, "out": (r.stdout + r.stderr)[-3000:], "dirs": dirs, "timed_out": r.timed_out,
             "panic": "panic:" in r.stderr or "fatal error:" in r.stderr}
 
